@@ -2,4 +2,7 @@
 EXTENDS NixDimLink
 T2 == { "t1", "t2" }
 Ranks == [t \in T2 |-> IF t = "t1" THEN 1 ELSE 2]
+\* ... and with a data frame as a link target
+T3 == { "t1", "fr" }
+RanksF == [t \in T3 |-> IF t = "t1" THEN 1 ELSE 0]
 =============================================================================
